@@ -211,14 +211,26 @@ macro_rules! float_checks {
             /// sin, cos, tan, sin_cos, csc, sec, cot against libm (oracle evaluated in f64)
             pub fn trig(d: &mut Draw) -> Outcome {
                 let deg = d.bool();
-                let x = match d.int(0, 3) {
+                let kind = d.int(0, 4);
+                let x = match kind {
                     0 => d.f64_in(-7.0, 7.0),
                     1 => d.f64_slog(1e-8, 1e4),
                     2 => (d.int(-64, 64) as f64) * PI64 / 8.0 + d.f64_slog(1e-6, 0.3),
                     _ => d.f64_in(-100.0, 100.0),
                 };
                 // the value handed to cgmath, in its unit and its type
-                let a: F = if deg { (x * 180.0 / PI64) as F } else { x as F };
+                let mut a: F = if deg { (x * 180.0 / PI64) as F } else { x as F };
+                if kind == 4 {
+                    // exactly the library's own named angles (the floats nearest to a half, third, quarter, sixth of a
+                    // turn, a full turn, zero) and small integer multiples of them, either sign
+                    let k = d.pick(&[1.0, -1.0, 2.0, -2.0, 3.0, 0.5, -0.5, 5.0]) as F;
+                    let w = d.below(6);
+                    a = k * if deg {
+                        [Deg::<F>::turn_div_2().0, Deg::<F>::turn_div_3().0, Deg::<F>::turn_div_4().0, Deg::<F>::turn_div_6().0, Deg::<F>::full_turn().0, 0.0][w]
+                    } else {
+                        [Rad::<F>::turn_div_2().0, Rad::<F>::turn_div_3().0, Rad::<F>::turn_div_4().0, Rad::<F>::turn_div_6().0, Rad::<F>::full_turn().0, 0.0][w]
+                    };
+                }
                 d.note("unit", &if deg { "Deg" } else { "Rad" });
                 d.note("a", &a);
                 // radian measure of exactly that value, in f64
@@ -260,7 +272,7 @@ macro_rules! float_checks {
                 } else {
                     cls = "near-pole";
                 }
-                pass(cls, ax > 1e-3)
+                pass(if kind == 4 { "named-angle" } else { cls }, ax > 1e-3)
             }
 
             /// asin, acos, atan, atan2 return the principal value in the caller's unit
@@ -334,6 +346,16 @@ macro_rules! float_checks {
                         ensure!(same(s.0, ((0.0 + a) + b) + a), "sum-refs", "Sum over references");
                         let s: $A<F> = vec![aa, bb].into_iter().sum();
                         ensure!(same(s.0, (0.0 + a) + b), "sum-values", "Sum over values");
+                        // operands by reference; single and empty sums; zero()
+                        ensure!(same((&aa + &bb).0, a + b) && same((aa + &bb).0, a + b) && same((&aa + bb).0, a + b), "add-ref-forms", "a + b with reference operands");
+                        ensure!(same((&aa - &bb).0, a - b) && same((aa - &bb).0, a - b) && same((&aa - bb).0, a - b), "sub-ref-forms", "a - b with reference operands");
+                        ensure!(same((&aa % &bb).0, a % b) && same((aa % &bb).0, a % b) && same((&aa % bb).0, a % b), "rem-ref-forms", "a % b with reference operands");
+                        ensure!(same(&aa / &bb, a / b) && same(aa / &bb, a / b) && same(&aa / bb, a / b), "ratio-ref-forms", "a / b with reference operands");
+                        ensure!(same((&aa * k).0, a * k) && same((&aa / k).0, a / k) && same((-&aa).0, -a), "scalar-ref-forms", "&a * k, &a / k, -&a");
+                        let s: $A<F> = [aa].iter().sum();
+                        ensure!(same(s.0, 0.0 + a), "sum-single", "Sum of one angle");
+                        let s: $A<F> = [aa; 0].iter().sum();
+                        ensure!(same(s.0, 0.0) && same($A::<F>::zero().0, 0.0), "sum-empty", "empty Sum and zero()");
                     }};
                 }
                 unit!(Rad);
@@ -394,8 +416,8 @@ pub fn property() -> Property {
     add!("normalize-f32", "f32", f32c::normalize, 20000, 2_000_000, 12, NORM, "any non-zero finite value; classes raw-bits/tiny-negative/turn-multiple/huge/subnormal required");
     add!("convert-f64", "f64", f64c::convert, 10000, 1_000_000, 16, &[("small", 100), ("large", 100), ("near-max", 50)], "every generated magnitude (log-uniform over the non-over/underflowing range)");
     add!("convert-f32", "f32", f32c::convert, 10000, 1_000_000, 16, &[("small", 100), ("large", 100), ("near-max", 50)], "every generated magnitude (log-uniform over the non-over/underflowing range)");
-    add!("trig-f64", "f64", f64c::trig, 10000, 1_000_000, 12, &[("regular", 300)], "|x| > 1e-3 rad");
-    add!("trig-f32", "f32", f32c::trig, 10000, 1_000_000, 12, &[("regular", 300)], "|x| > 1e-3 rad");
+    add!("trig-f64", "f64", f64c::trig, 10000, 1_000_000, 12, &[("regular", 300), ("named-angle", 100)], "|x| > 1e-3 rad");
+    add!("trig-f32", "f32", f32c::trig, 10000, 1_000_000, 12, &[("regular", 300), ("named-angle", 100)], "|x| > 1e-3 rad");
     add!("inverse-f64", "f64", f64c::inverse, 8000, 500_000, 24, &[("rad", 200), ("deg", 200)], "every generated ratio / quadrant");
     add!("inverse-f32", "f32", f32c::inverse, 8000, 500_000, 24, &[("rad", 200), ("deg", 200)], "every generated ratio / quadrant");
     add!("arithmetic-f64", "f64", f64c::arithmetic, 6000, 400_000, 8, &[], "a and b non-zero (raw bit patterns)");
